@@ -69,6 +69,10 @@ type Scenario[P any] struct {
 	// KeepChanLog records every channel send/receive of the execution (x.ChanLog) for oracles that need to know who
 	// handed what to whom.
 	KeepChanLog bool
+	// SplitAt is the recursion depth (number of non-default choices) at which subtrees are dealt to process shards
+	// (default 3). Everything above that depth is executed by every shard, so a scenario whose deviation + free-choice
+	// bounds allow only 2-3 non-default choices must split at depth 1.
+	SplitAt int
 	// NoRace turns the happens-before data-race detection (vsched race.go) off for this scenario.
 	NoRace bool
 	// DefaultOnly: run only the default schedule (for checks whose quantifier is not the schedule).
@@ -85,6 +89,13 @@ type witness[P any] struct {
 	Scenario string `json:"scenario"`
 	Params   P      `json:"params"`
 	Schedule []int  `json:"schedule"`
+}
+
+func splitAt(n int) int {
+	if n > 0 {
+		return n
+	}
+	return 3
 }
 
 // raceOn: happens-before race detection in every scenario (VERIF_NORACE=1 turns it off).
@@ -137,7 +148,7 @@ func Explore[P any](c *kit.Ctx, sc Scenario[P], bound int, shard, shards int) St
 	execs := 0
 	stepLimited := 0
 	st := vsched.Explore(vsched.ExploreOpts{
-		Bound: bound, FreeBound: sc.FreeBound, DefaultOnly: sc.DefaultOnly, Deadline: c.Deadline(), Shard: shard, Shards: shards, SplitAt: 3, Run: vsched.Opts{MaxSteps: sc.MaxSteps, KeepChanLog: sc.KeepChanLog, Race: raceOn && !sc.NoRace},
+		Bound: bound, FreeBound: sc.FreeBound, DefaultOnly: sc.DefaultOnly, Deadline: c.Deadline(), Shard: shard, Shards: shards, SplitAt: splitAt(sc.SplitAt), Run: vsched.Opts{MaxSteps: sc.MaxSteps, KeepChanLog: sc.KeepChanLog, Race: raceOn && !sc.NoRace},
 		Exec: func(prefix []int) *vsched.Sched {
 			if execs++; execs%256 == 0 {
 				runtime.GC()
